@@ -269,7 +269,15 @@ pub fn run_law(op: &str, args: &[String]) -> String {
             // two variables: the first input and a random later one
             let v1 = var(0);
             let v2 = var(1 + rng.below(n - 1));
-            let vs: BTreeSet<String> = [v1.clone(), v2.clone()].into_iter().collect();
+            // two foreign names in front of the first input, two between the first and the second one
+            let mut vs: BTreeSet<String> = [v1.clone(), v2.clone()].into_iter().collect();
+            // (not for the derivative: differentiating by a variable the function does not mention
+            // yields the constant false, which the four cofactors printed below do not describe)
+            if op != "law.deriv" {
+                for f in ["a0", "a1", "v000x", "v000y"] {
+                    vs.insert(f.to_string());
+                }
+            }
             let res = match (&a, &op[4..]) {
                 (Val::E(x), "exists") => Val::E(x.existential_quantification(vs.clone())),
                 (Val::E(x), "forall") => Val::E(x.universal_quantification(vs.clone())),
@@ -387,6 +395,29 @@ pub fn run_law(op: &str, args: &[String]) -> String {
             };
             let v_def1: Vec<bool> = partial.iter().map(|p| dflt(&a, p, true)).collect();
             let v_def0: Vec<bool> = partial.iter().map(|p| dflt(&a, p, false)).collect();
+            // sparse assignments: two to four entries (a foreign one among them now and then), the rest
+            // is read from the default
+            let sparse: Vec<BTreeMap<String, bool>> = smp
+                .iter()
+                .enumerate()
+                .map(|(i, a)| {
+                    let mut m = BTreeMap::new();
+                    for j in 0..(2 + i % 3) {
+                        let k = var((i * 7 + j * 13 + 3) % n);
+                        m.insert(k.clone(), *a.get(&k).unwrap_or(&false));
+                    }
+                    if i % 4 == 0 {
+                        m.insert("zz".to_string(), true);
+                    }
+                    if i % 5 == 0 {
+                        m.insert("a0".to_string(), false);
+                    }
+                    m
+                })
+                .collect();
+            let s_def1: Vec<bool> = sparse.iter().map(|p| dflt(&a, p, true)).collect();
+            let s_def0: Vec<bool> = sparse.iter().map(|p| dflt(&a, p, false)).collect();
+            let sparse_enc: Vec<String> = sparse.iter().map(enc_pval).collect();
             let checked = |v: &Val, a: &BTreeMap<String, bool>| -> Result<bool, Vec<String>> {
                 match v {
                     Val::E(x) => x.evaluate_checked(a),
@@ -414,8 +445,9 @@ pub fn run_law(op: &str, args: &[String]) -> String {
             }
             ck.push(')');
             format!(
-                "(L {} {} ({}) {} {} {} {})",
-                enc_clauses(&ca), enc_names(uni.iter()), rows.join(" "), v_full, enc_bits(&v_def1), enc_bits(&v_def0), ck
+                "(L {} {} ({}) {} {} {} {} ({}) {} {})",
+                enc_clauses(&ca), enc_names(uni.iter()), rows.join(" "), v_full, enc_bits(&v_def1), enc_bits(&v_def0), ck,
+                sparse_enc.join(" "), enc_bits(&s_def1), enc_bits(&s_def0)
             )
         }
         "law.cmp" => {
@@ -569,8 +601,9 @@ pub fn gen_laws(cx: &mut crate::gen::Ctx, prop: &str) {
             vec![("-", sizes)]
         } else {
             vec![
-                ("E", if *op == "law.weight" || *op == "law.essential" || *op == "law.cmp" { vec![9, 12] } else { vec![17, 40] }),
-                ("T", if cx.thorough { vec![9, 12, 14] } else { vec![9, 12] }),
+                ("E", if *op == "law.weight" || *op == "law.essential" { vec![9, 12] } else if *op == "law.cmp" { vec![9, 12, 16, 17] } else { vec![17, 40] }),
+                // tables are exponential in the inputs: 16 and 17 inputs only for the unary operations
+                ("T", if ["law.restrict", "law.exists", "law.forall", "law.deriv", "law.eval"].contains(op) { if cx.thorough { vec![9, 12, 14, 16, 17] } else { vec![9, 12, 16] } } else { vec![9, 12] }),
                 ("B", if cx.thorough { vec![17, 33, 54, 65, 90] } else { vec![17, 33, 54, 65] }),
             ]
         };
